@@ -1624,13 +1624,21 @@ pub fn registry(rng: &mut Rng) -> Program {
                 }
                 5 | 6 => {
                     ops.push(Op::SpawnActor { decl: (k - 1) as u16 });
-                    ops.push(if g.rng.chance(3, 4) { Op::Register { slot: nslots } } else { Op::Replace { slot: nslots } });
+                    let reg = g.rng.chance(3, 4);
+                    ops.push(if reg { Op::Register { slot: nslots } } else { Op::Replace { slot: nslots } });
+                    if !reg && g.rng.chance(2, 3) {
+                        // learn who the replaced entry was (if it still answers)
+                        ops.push(Op::Call { slot: nslots + 1, script: vec![], cancel: None });
+                    }
                     held.push((nslots, k));
                     nslots += 2;
                     used += 1;
                 }
                 7 => {
                     ops.push(Op::Unregister { k });
+                    if g.rng.chance(2, 3) {
+                        ops.push(Op::Call { slot: nslots, script: vec![], cancel: None });
+                    }
                     held.push((nslots, k));
                     nslots += 1;
                     used += 1;
